@@ -1115,6 +1115,9 @@ func autoTableLayout(context *layoutContext, box_ Box, containingBlock bo.Point)
 func tableWrapperWidth(context *layoutContext, wrapper_ Box, containingBlock bo.MaybePoint) {
 	wrapper := wrapper_.Box()
 	table := wrapper.GetWrappedTable()
+	if table == nil { // root wrapper emptied for a blank page
+		return
+	}
 	resolvePercentages(table, containingBlock, 0)
 
 	if table.Box().Style.GetTableLayout() == "fixed" && table.Box().Width != pr.AutoF {
